@@ -246,6 +246,34 @@ def leg_b(args):
                     rowsql.append("(" + ", ".join(x[1] for x in e) + ")")
                 collist = "" if mode == "values" else "(" + ", ".join(cols[c][0] for c in target) + ")"
                 sql = f"insert into t{collist} values {', '.join(rowsql)}"
+                if rng.random() < 0.1:
+                    # a source whose width differs from the target list, or a target named twice: every value must have exactly
+                    # one target, so the statement must be rejected (a value is never dropped, a column never left unfilled)
+                    bad = rng.choice(["extra-value", "missing-value", "duplicate-target"])
+                    if bad == "extra-value":
+                        rowsql2 = [x[:-1] + ", 1)" for x in rowsql]
+                        cl = collist
+                    elif bad == "missing-value" and len(target) > 1:
+                        rowsql2 = ["(" + ", ".join(x[1] for x in e[:-1]) + ")" for e in expected]
+                        cl = collist
+                    else:
+                        bad = "duplicate-target"
+                        names = [cols[c][0] for c in target]
+                        cl = "(" + ", ".join(names + [names[0]]) + ")"
+                        rowsql2 = [x[:-1] + ", 1)" for x in rowsql]
+                    sql = f"insert into t{cl} values {', '.join(rowsql2)}"
+                    r = rl.sql(sql)
+                    res["evals"] += 1
+                    res["malformed"] = res.get("malformed", 0) + 1
+                    if r.get("dead"):
+                        res["violations"].append(dict(signature="insert-kills-process", what=f"{ddl}; {sql}: {r['err'][:80]}", sql=sql, ddl=ddl, engine=engine))
+                        break
+                    if r["ok"]:
+                        res["violations"].append(dict(signature=f"insert-accepted-with-{bad}", what=f"{ddl}; {sql}: accepted; table holds {rows_of(rl.r.sql('select * from t'))[:3]}", sql=sql, ddl=ddl, engine=engine))
+                    elif r.get("kind") == "panic" or r.get("panics"):
+                        site = panic_site(r.get("panics")[0]) if r.get("panics") else "?"
+                        res["violations"].append(dict(signature=f"insert-panics:{site}", what=f"{ddl}; {sql}: {r.get('panics')}", sql=sql, ddl=ddl, engine=engine))
+                    continue
             r = rl.sql(sql)
             res["evals"] += 1
             if r.get("dead"):
